@@ -1427,8 +1427,17 @@ where
         .iter()
         .enumerate()
         .map(|(idx, x)| {
-            let username = demangle_toml_string(x["username"].to_string());
-            let password = demangle_toml_string(x["password"].to_string());
+            let string_value = |key: &str| {
+                x[key].as_str().map(str::to_string).ok_or_else(|| {
+                    serde::de::Error::custom(format!(
+                        "Client #{}: {} must be a string",
+                        idx + 1,
+                        key
+                    ))
+                })
+            };
+            let username = string_value("username")?;
+            let password = string_value("password")?;
 
             if username.is_empty() {
                 return Err(serde::de::Error::custom(format!(
@@ -1523,8 +1532,4 @@ where
     };
 
     Ok(Some(rules::RulesEngine::from_config(rules_config)))
-}
-
-fn demangle_toml_string(x: String) -> String {
-    x.replace('"', "").trim().to_string()
 }
